@@ -11,6 +11,8 @@
 #include <sstream>
 #include <map>
 #include <memory>
+#include <csignal>
+#include <unistd.h>
 
 using namespace squids;
 
@@ -76,10 +78,21 @@ static std::unique_ptr<gsl_matrix_complex, void (*)(gsl_matrix_complex*)> gsl_fr
 // Factory results obtained while static initializers run (namespace-scope constants of an application): the harness
 // objects precede the library's on the link line, so these are built before the library's own static data.
 // The specification's factories are functions of (kind, d, index) only, so the phase of the program cannot matter.
+// A replayed call that kills the process (every call here has arguments the specification admits) is reported with its position.
+static volatile int g_in_main = 0;
+static volatile long g_crash_idx = -1;
+static void crash_handler(int sig) {
+  char b[96]; int n = snprintf(b, sizeof b, "\nCRASH %d %s %ld\n", sig, g_in_main ? "case" : "static-initialisation", (long)g_crash_idx);
+  if (n > 0) { ssize_t w = write(1, b, (size_t)n); (void)w; }
+  _exit(70);
+}
+static void install_crash_handler() { for (int sg : {SIGSEGV, SIGBUS, SIGFPE, SIGABRT, SIGILL}) signal(sg, crash_handler); }
+
 struct StaticFactories {
   std::map<std::string, SU_vector> t;
   static std::string key(const std::string& op, int d, long i) { return op + "/" + std::to_string(d) + "/" + std::to_string(i); }
   StaticFactories() {
+    install_crash_handler();
     for (int d = 2; d <= 6; d++) {
       t.emplace(key("identity", d, 0), SU_vector::Identity(d));
       for (int i = 0; i < d; i++) t.emplace(key("projector", d, i), SU_vector::Projector(d, i));
@@ -125,6 +138,21 @@ static void pollute(int dp) {
 
 // Selections and sign changes (negation, transposition, Real, Imag) commute EXACTLY with scaling by a power of two over the
 // whole range of finite doubles: components just below the overflow threshold and far below 1 must pass through unharmed.
+// The documented convenience wrapper detail::guarantee<flags>(expression): a statement that truthfully promises equal sizes and/or aligned
+// storage (but not NoAlias) has the value of the unwrapped statement, also when the target is an operand; with every flag on distinct vectors too.
+template <class F> static void guarantee_forms(const std::string& nm, unsigned d, const SU_vector& a, const SU_vector& b, const SU_vector& r, F f) {
+  using namespace squids::detail;
+  auto al = [&](const SU_vector& s) { SU_vector t(d); for (unsigned q = 0; q < d * d; q++) t[q] = s[q]; return t; };   // storage from the sized constructor: aligned
+  { SU_vector X = al(a), Y = al(b); X = guarantee<EqualSizes>(f(X, Y)); expect_same("a=guarantee<EqualSizes>(" + nm + ")", X, r, 0); }
+  { SU_vector X = al(a), Y = al(b); Y = guarantee<AlignedStorage>(f(X, Y)); expect_same("b=guarantee<AlignedStorage>(" + nm + ")", Y, r, 0); }
+  { SU_vector X = al(a), Y = al(b); SU_vector e = X + r; X += guarantee<EqualSizes | AlignedStorage>(f(X, Y)); expect_same("a+=guarantee<EqualSizes|AlignedStorage>(" + nm + ")", X, e, 0); }
+  { SU_vector X = al(a), Y = al(b); SU_vector e = Y - r; Y -= guarantee<EqualSizes>(f(X, Y)); expect_same("b-=guarantee<EqualSizes>(" + nm + ")", Y, e, 0); }
+  { SU_vector X = al(a), Y = al(b), T(d); T = guarantee<NoAlias | EqualSizes | AlignedStorage>(f(X, Y)); expect_same("t=guarantee<all>(" + nm + ")", T, r, 0); }
+  { SU_vector X = al(a), Y = al(b), T(d); T[0] = 0.5; SU_vector e = T + r; T += guarantee<NoAlias | EqualSizes>(f(X, Y)); expect_same("t+=guarantee<NoAlias|EqualSizes>(" + nm + ")", T, e, 0); }
+  { alignas(32) double buf[40]; for (unsigned k = 0; k < d * d; k++) buf[k] = a[k];
+    SU_vector v1(d, buf), v2(d, buf); v1 = guarantee<EqualSizes>(f(v2, b)); expect_same("view=guarantee<EqualSizes>(" + nm + " of view)", v1, r, 0); }
+}
+
 template <class F> static void range_exact(const std::string& what, const SU_vector& a, F f) {
   double amax = 0;
   for (unsigned k = 0; k < a.Size(); k++) amax = std::max(amax, std::fabs(a[k]));
@@ -152,6 +180,7 @@ static void set_params(Const& params, int d, const std::vector<long>& h) {
 
 int main(int argc, char** argv) {
   if (argc > 1) TOLF = atof(argv[1]);
+  g_in_main = 1; install_crash_handler();
   std::ios::sync_with_stdio(false);
   long ncases = 0;
   std::string op;
@@ -167,7 +196,7 @@ int main(int argc, char** argv) {
     for (int i = 0; i < 5; i++) std::cin >> s5[i];
     cd sexp = exact_scalar(s5[0], s5[1], s5[2], s5[3], s5[4]);
     ncases++;
-    cur_idx = idx; cur_op = op;
+    cur_idx = idx; cur_op = op; g_crash_idx = idx;
     try {
       if (idx % 2 == 1) { int dp = ((idx / 2) % 2 == 0) ? (d == 6 ? 5 : 6) : (d == 2 ? 3 : 2); pollute(dp); }
       std::vector<double> ca = comps_from_matrix(A), cb = comps_from_matrix(B);
@@ -331,6 +360,15 @@ int main(int argc, char** argv) {
           (void)any0; }
         // one differing slot
         for (int k = 0; k < d * d; k++) { SU_vector c = a; c[k] += 1.0; if (c == a) { mismatch("==oneslot" + std::to_string(k), 1, 0); break; } }
+        // equality speaks of dimension and components only: who owns the storage plays no part (every pairing, both orders)
+        { alignas(32) double ua[40], ub[40], uc[40]; for (int k = 0; k < d * d; k++) { ua[k] = a[k]; ub[k] = b[k]; uc[k] = a[k]; }
+          SU_vector va(d, ua), vb(d, ub), vc(d, uc), sa(d), sb; sa.SetBackingStore(ua); sb = a;
+          bool want = (p[0] == 1);
+          if ((a == vb) != want || (va == b) != want || (va == vb) != want || (vb == a) != want || (b == va) != want || (vb == va) != want) mismatch("== between owned and external storage (a,b)", 1, 0);
+          if (!(a == va) || !(va == a) || !(va == vc) || !(vc == va) || !(va == sa) || !(sa == va) || !(a == sa) || !(sa == a) || !(sb == va) || !(va == sb)) mismatch("== between owned and external storage (equal values)", 0, 1);
+          for (int k : {0, d * d - 1}) { uc[k] += 1.0; if (a == vc || vc == a || va == vc || vc == va) mismatch("== between owned and external storage (one slot differs)", 1, 0); uc[k] -= 1.0; }
+          SU_vector o2(d == 6 ? 5 : d + 1); alignas(32) double uo[40] = {0}; SU_vector vo(d == 6 ? 5 : d + 1, uo);
+          if (a == vo || vo == a || va == o2 || o2 == va || va == vo || vo == va) mismatch("==otherdim between owned and external storage", 1, 0); }
       } else if (op == "icom") {
         SU_vector r = iCommutator(a, b);
         expect_vec("iCommutator", r, R, SA * SB);
@@ -362,6 +400,7 @@ int main(int argc, char** argv) {
           SU_vector own1 = a; SU_vector vw1(d, &own1[0]); own1 = iCommutator(vw1, b); expect_same("owner=iCommutator(viewOfOwner,b)", own1, r, 0);
           SU_vector own2 = b; SU_vector vw2(d, &own2[0]); vw2 = iCommutator(a, own2); expect_same("viewOfOwner=iCommutator(a,owner)", own2, r, 0);
         }
+        guarantee_forms("iCommutator(a,b)", d, a, b, r, [](const SU_vector& x, const SU_vector& y) { return iCommutator(x, y); });
       } else if (op == "acom") {
         SU_vector r = ACommutator(a, b);
         expect_vec("ACommutator", r, R, SA * SB);
@@ -389,6 +428,7 @@ int main(int argc, char** argv) {
           SU_vector v1(d, buf), v2(d, buf); v1 = ACommutator(v2, b); expect_same("view=ACommutator(view,b)", v1, r, 0);
           SU_vector own1 = a; SU_vector vw1(d, &own1[0]); own1 = ACommutator(vw1, b); expect_same("owner=ACommutator(viewOfOwner,b)", own1, r, 0);
           SU_vector own2 = b; SU_vector vw2(d, &own2[0]); vw2 = ACommutator(a, own2); expect_same("viewOfOwner=ACommutator(a,owner)", own2, r, 0); }
+        guarantee_forms("ACommutator(a,b)", d, a, b, r, [](const SU_vector& x, const SU_vector& y) { return ACommutator(x, y); });
       } else if (op == "trace") {
         double t1 = a * b, t2 = SUTrace(a, b);
         double S = SA * SB * d, tol = TOLF * EPS * (S > 0 ? S : 1);
@@ -418,6 +458,7 @@ int main(int argc, char** argv) {
           SU_vector own1 = a; SU_vector vw1(d, &own1[0]); own1 = vw1.Evolve(H, t); expect_same("owner=viewOfOwner.Evolve(H,t)", own1, r, 0);
           SU_vector own2 = a; SU_vector vw2(d, &own2[0]); vw2 = own2.Evolve(H, t); expect_same("viewOfOwner=owner.Evolve(H,t)", own2, r, 0);
           SU_vector own3 = H; SU_vector vw3(d, &own3[0]); own3 = a.Evolve(vw3, t); expect_same("ownerOfH=a.Evolve(viewOfH,t)", own3, r, 0); }
+        guarantee_forms("a.Evolve(H,t)", d, a, H, r, [t](const SU_vector& x, const SU_vector& y) { return x.Evolve(y, t); });
         { // the same evolution reached through unevaluated expressions on either side, and through the unitary transformation
           SU_vector z(d);                                        // zero: a+z and H+z are expressions with the values of a and H
           SU_vector e1 = (a + z).Evolve(H, t), e2 = (a + z).Evolve(H + z, t), e3 = a.Evolve(H + z, t), e4 = (a * 1.0).Evolve(H * 1.0, t);
